@@ -261,7 +261,17 @@ impl Puppet {
         // the contract's bounded iterations must be the matching parts of its full iteration (start
         // bounds ending in 0xFF, both orders); a disagreement is recorded as a marker entry, which no
         // model state contains
-        for b in [&b"a\xff"[..], &b"m"[..], &b"\xff"[..], &b"pre\xff\xff"[..], &b""[..]] {
+        // (bounds: a few fixed ones and the contract's own first, middle and last key - an exclusive
+        // end bound equal to a key must leave that key out, whether it is committed or pending)
+        let mut bounds: Vec<Vec<u8>> = vec![b"a\xff".to_vec(), b"m".to_vec(), b"\xff".to_vec(), b"pre\xff\xff".to_vec(), vec![]];
+        if !own_store.is_empty() {
+            for i in [0, own_store.len() / 2, own_store.len() - 1] {
+                if !bounds.contains(&own_store[i].0) {
+                    bounds.push(own_store[i].0.clone());
+                }
+            }
+        }
+        for b in bounds.iter().map(|b| b.as_slice()) {
             let from: Dump = deps.storage.range(Some(b), None, Order::Ascending).collect();
             let want_from: Dump = own_store.iter().filter(|(k, _)| k.as_slice() >= b).cloned().collect();
             let below: Dump = deps.storage.range(None, Some(b), Order::Descending).collect();
